@@ -1,6 +1,471 @@
-//! Harness for property C09 (stub: not built yet).
+//! vh-c09 — correspondence and oracle for property C09 (EncryptedStore: tampering is detected,
+//! plaintext never reaches the backend, no nonce carries two chunks).
+//!
+//! A case is a list of op lines:
+//!   cfg <key_seed> <chunk_size> <strict 0|1>
+//!   put <loc> <size> <seed> | mput <loc> <seed> <part,part,…> | copy <from> <to> | rename <from> <to> | del <loc>
+//!   check <seed>            correspondence with the Lean model + clean-state oracle (see check.rs)
+//!   tamper <tamper line>    one modification of the backend, all read paths, oracle (see tamper.rs)
+//!   sweep full|<n>          every single-site tamper of the current backend (or a sample of n)
+
+mod check;
+mod metadoc;
+mod recstore;
+mod tamper;
+mod world;
+
+use std::collections::BTreeMap;
+use std::panic::AssertUnwindSafe;
+use vh_common::{Args, ModelProc, Report, Rng, hex, read_corpus, read_replay, serde_json::json, shrink};
+use world::World;
+
+#[derive(Clone, Debug)]
+pub struct Failure {
+    pub key: String,
+    pub what: String,
+    pub tamper: Option<String>,
+    pub expected: String,
+    pub observed: String,
+}
+
+impl Failure {
+    pub fn new(key: &str, what: &str, tamper: Option<&str>, expected: &str, observed: &str) -> Failure {
+        Failure { key: key.into(), what: what.into(), tamper: tamper.map(|s| s.to_string()), expected: expected.into(), observed: observed.into() }
+    }
+}
+
+#[derive(Default)]
+pub struct Outcome {
+    pub hits: BTreeMap<String, u64>,
+    pub disagreements: Vec<(String, String, String)>,
+    pub failures: Vec<Failure>,
+    pub model_compared: u64,
+    pub cases: Vec<(String, bool)>,
+    pub evals: u64,
+    pub tampers: u64,
+    pub measured_nonces: u64,
+    pub errors: Vec<String>,
+}
+
+impl Outcome {
+    pub fn hit(&mut self, k: &str) {
+        *self.hits.entry(k.to_string()).or_insert(0) += 1;
+    }
+    pub fn hit_n(&mut self, k: &str, n: u64) {
+        *self.hits.entry(k.to_string()).or_insert(0) += n;
+    }
+    pub fn fail(&mut self, f: Failure) {
+        // keep the first failure per (key, tamper kind): enough to report, cheap to shrink
+        if self.failures.len() < 50 && !self.failures.iter().any(|g| g.key == f.key) {
+            self.failures.push(f);
+        } else {
+            self.hit("oracle_failures_not_listed");
+        }
+    }
+    pub fn disagree(&mut self, what: &str, model: &str, implementation: &str) {
+        if self.disagreements.len() < 10 {
+            self.disagreements.push((what.into(), model.into(), implementation.into()));
+        } else {
+            self.hit("disagreements_not_listed");
+        }
+    }
+    pub fn eval(&mut self, canon: &str, nontrivial: bool) {
+        self.cases.push((canon.to_string(), nontrivial));
+    }
+}
+
+/// Every single-site tamper of the current backend state (plus the few named multi-site ones).
+async fn sweep_lines(w: &World, rng: &mut Rng, full_bits: bool) -> Vec<String> {
+    let snap = w.snapshot().await;
+    let mut v: Vec<String> = Vec::new();
+    let keys: Vec<String> = w.truth.keys().cloned().collect();
+    let c = w.chunk as usize;
+    for (ki, loc) in keys.iter().enumerate() {
+        let t = &w.truth[loc];
+        let meta = snap.get(&format!("meta/{loc}")).cloned().unwrap_or_default();
+        let payload = snap.get(&t.payload_path).cloned().unwrap_or_default();
+        for (obj, len, all_bits) in [(format!("meta:{loc}"), meta.len(), full_bits || ki == 0), (format!("payload:{loc}"), payload.len(), full_bits || payload.len() <= 96)] {
+            for i in 0..len {
+                if all_bits {
+                    for b in 0..8 {
+                        v.push(format!("flip {obj} {i} {b}"));
+                    }
+                } else {
+                    v.push(format!("flip {obj} {i} {}", rng.below(8)));
+                }
+            }
+            for n in 0..len {
+                v.push(format!("trunc {obj} {n}"));
+            }
+            for n in [1, c, c + 1] {
+                v.push(format!("cuthead {obj} {n}"));
+                v.push(format!("extend {obj} {n} 0"));
+                v.push(format!("extend {obj} {n} 165"));
+            }
+            v.push(format!("dup {obj}"));
+            v.push(format!("del {obj}"));
+        }
+        let n_chunks = payload.len().div_ceil(c.max(1));
+        let mut pairs = 0;
+        'p: for i in 0..n_chunks {
+            for j in 0..n_chunks {
+                if i != j {
+                    if i < j {
+                        v.push(format!("swapchunks {loc} {i} {j}"));
+                    }
+                    v.push(format!("movechunk {loc} {i} {j}"));
+                    pairs += 1;
+                    if pairs > 24 {
+                        break 'p;
+                    }
+                }
+            }
+        }
+        // field level
+        let opt = ["c", "av", "an", "at", "g", "m"];
+        for mask in 1u32..64 {
+            let fs: Vec<&str> = (0..6).filter(|b| mask & (1 << b) != 0).map(|b| opt[b]).collect();
+            v.push(format!("strip {loc} {}", fs.join(",")));
+        }
+        for f in ["s", "e", "o", "v", "n", "t"] {
+            v.push(format!("strip {loc} {f}"));
+        }
+        let size = t.size;
+        for s in [0, size.saturating_sub(1), size + 1, w.chunk, size + w.chunk] {
+            v.push(format!("setint {loc} s {s}"));
+        }
+        for cc in [0, 1, w.chunk.saturating_sub(1), w.chunk + 1, 2 * w.chunk, u64::MAX] {
+            v.push(format!("setint {loc} c {cc}"));
+        }
+        for av in [0, 2, 255] {
+            v.push(format!("setint {loc} av {av}"));
+        }
+        for m in [0u64, 1, u64::MAX / 2] {
+            v.push(format!("setint {loc} m {m}"));
+        }
+        for f in ["e", "g", "c", "av", "m", "an", "at"] {
+            v.push(format!("setnull {loc} {f}"));
+        }
+        v.push(format!("settext {loc} e {}", hex(b"forged")));
+        v.push(format!("settext {loc} o {}", hex(b"x")));
+        v.push(format!("settext {loc} v {}", hex(b"x")));
+        for h in &w.history {
+            if let Some(g) = h.payload_path.rsplit('/').next() {
+                v.push(format!("settext {loc} g {}", hex(g.as_bytes())));
+            }
+        }
+        for (op, i, j) in [("drop", 0, 0), ("drop", n_chunks.saturating_sub(1), 0), ("dup", 0, 0), ("swap", 0, 1), ("swap", 0, n_chunks.saturating_sub(1)), ("push", 0, 7)] {
+            v.push(format!("tags {loc} {op} {i} {j}"));
+        }
+        v.push(format!("forge-legacy-empty {loc}"));
+        // objects exchanged between keys
+        for other in &keys {
+            if other != loc {
+                v.push(format!("swapobj meta:{loc} meta:{other}"));
+                v.push(format!("swapobj payload:{loc} payload:{other}"));
+                v.push(format!("copyobj meta:{other} meta:{loc}"));
+                v.push(format!("copyobj payload:{other} payload:{loc}"));
+                v.push(format!("swapobj meta:{loc} payload:{loc}"));
+            }
+        }
+        // documents / payloads of earlier generations and of other keys' history put in place
+        for k in 0..w.history.len() {
+            v.push(format!("copyobj hmeta:{k} meta:{loc}"));
+            v.push(format!("copyobj hpayload:{k} payload:{loc}"));
+        }
+    }
+    for k in 0..w.history.len() {
+        v.push(format!("copyobj hpayload:{k} hpayload:{k}"));
+        v.push(format!("copyobj hmeta:{k} hmeta:{k}"));
+        v.push(format!("rollback {k}"));
+    }
+    v.push("forge-legacy-phantom zz-phantom 12345".into());
+    v.push("forge-legacy-phantom zz-phantom 0".into());
+    v
+}
+
+/// Runs one case on the real code (+ model when a driver is given).
+async fn run_case(ops: &[String], mut model: Option<&mut ModelProc>, thorough: bool, out: &mut Outcome) {
+    let mut w: Option<World> = None;
+    let sig = ops.iter().filter(|l| !l.starts_with("sweep") && !l.starts_with("tamper") && !l.starts_with("check")).cloned().collect::<Vec<_>>().join(";");
+    for line in ops {
+        let toks: Vec<&str> = line.split(' ').filter(|t| !t.is_empty()).collect();
+        match toks.as_slice() {
+            ["cfg", k, c, s] => {
+                let (Ok(k), Ok(c)) = (k.parse::<u64>(), c.parse::<u64>()) else {
+                    out.errors.push(format!("bad cfg: {line}"));
+                    return;
+                };
+                w = Some(World::new(k, c.max(1), *s == "1"));
+                out.hit(&format!("cfg:chunk={c}"));
+                out.hit(if *s == "1" { "cfg:strict" } else { "cfg:compat" });
+            }
+            ["check", seed] => {
+                let Some(w) = w.as_mut() else { return };
+                let mut rng = Rng::new(seed.parse().unwrap_or(1));
+                check::check_world(w, &mut rng, model.as_deref_mut(), out, thorough).await;
+            }
+            ["tamper", rest @ ..] => {
+                let Some(w) = w.as_ref() else { return };
+                let t = rest.join(" ");
+                let applied = tamper::tamper_and_probe(w, &t, out, model.as_deref_mut()).await;
+                out.eval(&format!("{sig}|{t}"), applied && w.truth.values().any(|t| t.size > 0));
+            }
+            ["sweep", mode] => {
+                let Some(w) = w.as_ref() else { return };
+                let mut rng = Rng::new(0x5EE9 ^ sig.len() as u64);
+                let mut lines = sweep_lines(w, &mut rng, thorough).await;
+                if let Ok(n) = mode.parse::<usize>() {
+                    rng.shuffle(&mut lines);
+                    lines.truncate(n);
+                }
+                let nontriv = w.truth.values().any(|t| t.size > 0);
+                for t in lines {
+                    let before = out.failures.len();
+                    let applied = tamper::tamper_and_probe(w, &t, out, model.as_deref_mut()).await;
+                    out.eval(&format!("{sig}|{t}"), applied && nontriv);
+                    if out.failures.len() > before {
+                        // remember the tamper line so the failure replays without the sweep
+                        for f in out.failures[before..].iter_mut() {
+                            f.tamper.get_or_insert(t.clone());
+                        }
+                    }
+                }
+            }
+            _ => {
+                let Some(w) = w.as_mut() else {
+                    out.errors.push(format!("op before cfg: {line}"));
+                    return;
+                };
+                match w.write(&toks).await {
+                    Ok(()) => out.hit(&format!("op:{}", toks[0])),
+                    Err(e) => {
+                        out.hit(&format!("op:{}:failed", toks[0]));
+                        out.errors.push(format!("{line}: {e}"));
+                    }
+                }
+            }
+        }
+    }
+}
+
+fn run_case_blocking(ops: &[String], model: Option<&mut ModelProc>, thorough: bool) -> Outcome {
+    let mut out = Outcome::default();
+    let rt = tokio::runtime::Builder::new_current_thread().enable_all().build().expect("runtime");
+    let r = std::panic::catch_unwind(AssertUnwindSafe(|| rt.block_on(run_case(ops, model, thorough, &mut out))));
+    if let Err(p) = r {
+        let msg = p.downcast_ref::<String>().cloned().or_else(|| p.downcast_ref::<&str>().map(|s| s.to_string())).unwrap_or_else(|| "panic".into());
+        out.fail(Failure::new("panic", &format!("the code under test (or the harness) panicked: {msg}"), None, "no panic", &msg));
+    }
+    out
+}
+
+fn gen_case(seed: u64, i: u64, thorough: bool) -> Vec<String> {
+    let mut r = Rng::for_case(seed, i);
+    let chunk = *r.pick(&[1u64, 2, 3, 5, 7, 16, 16, 32, 64]);
+    let big = i % 8 == 7; // large chunks / objects: correspondence and a sampled sweep only
+    let chunk = if big { *r.pick(&[4096u64, 65536, 262144]) } else { chunk };
+    let strict = i % 2 == 0;
+    let mut ops = vec![format!("cfg {} {chunk} {}", r.below(1 << 20), strict as u8)];
+    let size_of = |r: &mut Rng| -> u64 {
+        let c = chunk;
+        let cap = if big { 3 * c + 17 } else { 160 };
+        (match r.below(10) {
+            0 => 0,
+            1 => 1,
+            2 => c.saturating_sub(1),
+            3 => c,
+            4 => c + 1,
+            5 => 2 * c,
+            6 => 2 * c + 1,
+            7 => 3 * c - 1,
+            _ => r.below(5 * c + 1),
+        })
+        .min(cap)
+    };
+    let names = ["a", "dir/b", "c.c", "d"];
+    let mut live: Vec<&str> = Vec::new();
+    let n_ops = 2 + r.usize(3);
+    for k in 0..n_ops {
+        let choice = if live.is_empty() { 0 } else { r.below(7) };
+        match choice {
+            0 | 1 => {
+                let loc = names[r.usize(if k == 0 { 1 } else { 3 })];
+                ops.push(format!("put {loc} {} {}", size_of(&mut r), r.below(1 << 30)));
+                if !live.contains(&loc) {
+                    live.push(loc);
+                }
+            }
+            2 | 3 => {
+                let loc = names[r.usize(3)];
+                let total = size_of(&mut r);
+                let mut parts = Vec::new();
+                let mut left = total;
+                while left > 0 && parts.len() < 6 {
+                    let p = (1 + r.below(2 * chunk + 1)).min(left);
+                    parts.push(p.to_string());
+                    left -= p;
+                }
+                if left > 0 {
+                    parts.push(left.to_string());
+                }
+                ops.push(format!("mput {loc} {} {}", r.below(1 << 30), if parts.is_empty() { "-".into() } else { parts.join(",") }));
+                if !live.contains(&loc) {
+                    live.push(loc);
+                }
+            }
+            4 => {
+                let from = live[r.usize(live.len())];
+                let to = names[r.usize(4)];
+                if from != to {
+                    ops.push(format!("copy {from} {to}"));
+                    if !live.contains(&to) {
+                        live.push(to);
+                    }
+                }
+            }
+            5 => {
+                let from = live[r.usize(live.len())];
+                let to = names[r.usize(4)];
+                if from != to {
+                    ops.push(format!("rename {from} {to}"));
+                    live.retain(|x| *x != from);
+                    if !live.contains(&to) {
+                        live.push(to);
+                    }
+                }
+            }
+            _ => {
+                // overwrite: leaves an older generation in the history
+                let loc = live[r.usize(live.len())];
+                ops.push(format!("put {loc} {} {}", size_of(&mut r), r.below(1 << 30)));
+            }
+        }
+    }
+    ops.push(format!("check {}", r.below(1 << 30)));
+    if big {
+        ops.push(format!("sweep {}", if thorough { 400 } else { 60 }));
+    } else if thorough || i % 2 == 1 || i < 4 {
+        ops.push("sweep full".into());
+    } else {
+        ops.push("sweep 1500".into());
+    }
+    ops
+}
+
+fn merge(report: &mut Report, o: Outcome, ops: &[String], driver: Option<&std::path::Path>, thorough: bool) {
+    for (k, n) in &o.hits {
+        report.hit_n(k, *n);
+    }
+    for (canon, nt) in &o.cases {
+        report.case(canon, *nt);
+    }
+    report.model_compared += o.model_compared;
+    for e in &o.errors {
+        report.notes.push(format!("case error: {e} in {ops:?}"));
+    }
+    for (what, m, i) in &o.disagreements {
+        report.disagreement(what, ops, m, i);
+    }
+    for f in &o.failures {
+        // the replayable form: writes + the one tamper line (instead of the sweep)
+        let mut rops: Vec<String> = ops.iter().filter(|l| !l.starts_with("sweep") && !(f.tamper.is_some() && l.starts_with("tamper"))).cloned().collect();
+        if let Some(t) = &f.tamper {
+            rops.retain(|l| !l.starts_with("check"));
+            rops.push(format!("tamper {t}"));
+        }
+        let key = f.key.clone();
+        let shrunk = shrink(
+            rops,
+            |cand| {
+                let mut m = driver.and_then(|_| None::<ModelProc>);
+                run_case_blocking(cand, m.as_mut(), thorough).failures.iter().any(|g| g.key == key)
+            },
+            40,
+        );
+        report.oracle_failure(&f.key, &f.what, &shrunk, &f.expected, &f.observed);
+    }
+}
+
 fn main() {
-    let a = vh_common::Args::parse();
-    let r = vh_common::Report::new("C09", &a, "stub");
-    r.write(&a);
+    let args = Args::parse();
+    let thorough = args.thorough() || args.focus.is_some();
+    let mut report = Report::new(
+        "C09",
+        &args,
+        "a tamper case counts when the modification changed at least one backend byte of a world holding a non-empty object and all read paths were probed (cold and warm cache); a clean read case counts when it returned a non-empty answer; distinctness is over (write history, tamper line) resp. (size, chunk size, request)",
+    );
+    report.max_samples = 6;
+    // silence panic backtraces of expected-failure probes
+    std::panic::set_hook(Box::new(|_| {}));
+
+    // 1. replay
+    if let Some(p) = &args.replay {
+        let ops = read_replay(p);
+        let mut model = ModelProc::from_args(&args);
+        let o = run_case_blocking(&ops, model.as_mut(), thorough);
+        report.sample(json!({"replay": ops}));
+        merge(&mut report, o, &ops, args.driver.as_deref(), thorough);
+        report.write(&args);
+        return;
+    }
+
+    // 2. corpus first
+    let mut cases: Vec<(String, Vec<String>)> = Vec::new();
+    if let Some(dir) = &args.corpus {
+        for (name, ops) in read_corpus(dir) {
+            cases.push((format!("corpus:{name}"), ops));
+        }
+    }
+    let n = args.budget(20, 320);
+    for i in 0..n {
+        cases.push((format!("gen:{i}"), gen_case(args.seed, i, thorough)));
+    }
+    for (_, ops) in cases.iter().take(3) {
+        report.sample(json!({"ops": ops}));
+    }
+
+    // 3. shard over threads; every worker owns a driver process
+    let workers = std::thread::available_parallelism().map(|n| n.get()).unwrap_or(4).min(16).min(cases.len().max(1));
+    let cases = std::sync::Arc::new(cases);
+    let next = std::sync::Arc::new(std::sync::atomic::AtomicUsize::new(0));
+    let (tx, rx) = std::sync::mpsc::channel::<(usize, Outcome)>();
+    let mut handles = Vec::new();
+    for _ in 0..workers {
+        let cases = cases.clone();
+        let next = next.clone();
+        let tx = tx.clone();
+        let args = args.clone();
+        handles.push(std::thread::spawn(move || {
+            let mut model = ModelProc::from_args(&args);
+            loop {
+                let i = next.fetch_add(1, std::sync::atomic::Ordering::SeqCst);
+                if i >= cases.len() {
+                    break;
+                }
+                let o = run_case_blocking(&cases[i].1, model.as_mut(), thorough);
+                if tx.send((i, o)).is_err() {
+                    break;
+                }
+            }
+        }));
+    }
+    drop(tx);
+    let mut outs: Vec<(usize, Outcome)> = rx.into_iter().collect();
+    for h in handles {
+        let _ = h.join();
+    }
+    outs.sort_by_key(|(i, _)| *i);
+    let mut nonces = 0u64;
+    let mut tampers = 0u64;
+    for (i, o) in outs {
+        nonces += o.measured_nonces;
+        tampers += o.tampers;
+        let ops = cases[i].1.clone();
+        merge(&mut report, o, &ops, args.driver.as_deref(), thorough);
+    }
+    report.measured.insert("nonces_rederived_without_repeat_measured_not_proved".into(), json!(nonces));
+    report.measured.insert("tampers_applied".into(), json!(tampers));
+    report.exhaustive = false;
+    report.write(&args);
 }
